@@ -458,3 +458,323 @@ def scenario_callback(c):
                         bad.setdefault("C07.restart_from_state_equals_uninterrupted", "restart from the state kept at iteration %d: %s" % (k, "; ".join(d)[:300]))
         out.append(dict(problem=name, violated=bad))
     return dict(runs=out)
+
+
+@register("scenario_update")
+def scenario_update(c):
+    """C13: update_fun_def as identity / as an objective switch at update call `at` (0 = initial call)."""
+    from collections import deque
+    from scipy.optimize import LbfgsInvHessProduct, OptimizeResult
+    out = []
+    K = c.get("K", 4)
+    mc = c.get("maxcor", 5)
+    eps = 2.2e-16
+    probs = problems()
+    for name in ("qp2", "qp3", "rosen2", "styb3"):
+        p = probs[name]
+        bad = {}
+        # ---- identity
+        fstart = float(p["f"](np.clip(p["x0"], p["bounds"][:, 0], p["bounds"][:, 1])))
+        for ftol, ftarget in ((0.0, None), (1e10, fstart - 1e-9 * (1 + abs(fstart))), (1e10, fstart + 1.0), (1e-3, fstart - 0.05 * (1 + abs(fstart))), (1e10, None)):
+            base = dict(maxiter=K, maxfun=10 ** 6, maxls=20, maxcor=mc, ftol=ftol, gtol=1e-10)
+            if ftarget is not None:
+                base["ftarget"] = ftarget
+            N = run_once(p, dict(base), callback_kind="false")
+            I = run_once(p, dict(base), callback_kind="false", extra=dict(update_fun_def=lambda x, f0, f0_old, grad, X, G: (f0, f0_old, grad, G)))
+            if N["exc"] or I["exc"]:
+                bad["no_exception"] = "identity update raised %r" % (N["exc"] or I["exc"],)
+                continue
+            d = _same_state(N["snap"], I["snap"], fields=("x", "fun", "jac", "nfev", "njev", "nit", "sk", "yk", "message", "success"), tol=0.0)
+            if d:
+                bad.setdefault("C13.identity_update_leaves_result_identical", "ftol=%g ftarget=%r: %s" % (ftol, ftarget, "; ".join(d)[:300]))
+            if len(N["states"]) != len(I["states"]) or any(_same_state(a["snap"], b["snap"], tol=0.0) for a, b in zip(N["states"], I["states"])):
+                bad.setdefault("C13.identity_update_leaves_callback_states_identical", "callback states differ (ftol=%g ftarget=%r)" % (ftol, ftarget))
+            if len(N["fcalls"]) != len(I["fcalls"]) or any(not np.array_equal(a[0], b[0]) for a, b in zip(N["fcalls"], I["fcalls"])):
+                bad.setdefault("C13.identity_update_leaves_evaluations_identical", "evaluation points differ (ftol=%g ftarget=%r)" % (ftol, ftarget))
+        # ---- switch of objective at update call `at`
+        at = max(1, c.get("at", 2))
+        for kind in ("negated", "rescaled", "tilted"):
+            if kind == "negated":
+                f2 = lambda x: -float(p["f"](x))
+                g2 = lambda x: -np.asarray(p["g"](x), float)
+            elif kind == "rescaled":
+                f2 = lambda x: 3.0 * float(p["f"](x))
+                g2 = lambda x: 3.0 * np.asarray(p["g"](x), float)
+            else:
+                w = np.linspace(1.0, 2.0, p["x0"].size)
+                f2 = lambda x: float(p["f"](x)) - 4.0 * float(w.dot(x)) ** 2 + 0.5 * float(x.dot(x))
+                g2 = lambda x: np.asarray(p["g"](x), float) - 8.0 * float(w.dot(x)) * w + x
+            for ftol in (0.0, 1e10):
+                state = dict(calls=0, switched=False, seen=None)
+
+                def fun(x):
+                    return f2(x) if state["switched"] else float(p["f"](x))
+
+                def jac(x):
+                    return g2(x) if state["switched"] else np.asarray(p["g"](x), float)
+
+                def upd(x, f0, f0_old, grad, X, G):
+                    i = state["calls"]
+                    state["calls"] += 1
+                    if i != at:
+                        return f0, f0_old, grad, G
+                    state["switched"] = True
+                    newG = deque(g2(np.array(xx)) for xx in X)
+                    state["seen"] = dict(X=[np.array(xx, float).copy() for xx in X], G=[g.copy() for g in newG], x=np.array(x, float).copy(), f=f2(x), grad=g2(x))
+                    return f2(x), f0_old, g2(x), newG
+                pp = dict(p, f=fun, g=jac)
+                R = run_once(pp, dict(maxiter=at + 1 if ftol == 0.0 else K, maxfun=10 ** 6, maxls=20, maxcor=mc, ftol=ftol, gtol=1e-12), extra=dict(update_fun_def=upd))
+                if R["exc"] is not None:
+                    bad.setdefault("no_exception", "%s switch raised %r" % (kind, R["exc"]))
+                    continue
+                seen = state["seen"]
+                if seen is None:
+                    continue
+                sk, yk = R["snap"]["sk"], R["snap"]["yk"]
+                if sk.size:
+                    sy = np.einsum("ij,ij->i", sk, yk)
+                    yy = np.einsum("ij,ij->i", yk, yk)
+                    if np.any(sy <= eps * yy):
+                        bad.setdefault("C13.retained_pairs_satisfy_curvature", "%s switch at update %d (ftol=%g): result carries a pair with s.y=%s <= eps*y.y" % (kind, at, ftol, sy.tolist()))
+                if ftol != 0.0 or R["res"].nit <= at - 0:
+                    continue
+                # reference: restart on the new objective from the checkpoint holding the rewritten, filtered history
+                keepX, keepG = [seen["X"][-1]], [seen["G"][-1]]
+                for k in range(len(seen["X"]) - 2, -1, -1):
+                    s_, y_ = keepX[0] - seen["X"][k], keepG[0] - seen["G"][k]
+                    if s_.dot(y_) > eps * y_.dot(y_):
+                        keepX.insert(0, seen["X"][k])
+                        keepG.insert(0, seen["G"][k])
+                s_, y_ = seen["x"] - keepX[-1], seen["grad"] - keepG[-1]
+                if s_.dot(y_) > eps * y_.dot(y_):
+                    keepX.append(seen["x"])
+                    keepG.append(seen["grad"])
+                skr = np.diff(np.array(keepX), axis=0).reshape(-1, seen["x"].size)
+                ykr = np.diff(np.array(keepG), axis=0).reshape(-1, seen["x"].size)
+                ck = OptimizeResult(fun=seen["f"], jac=seen["grad"].copy(), nfev=1, njev=1, nit=at, status=1, message="", x=seen["x"].copy(), success=True,
+                                    hess_inv=LbfgsInvHessProduct(skr, ykr))
+                p2 = dict(p, f=f2, g=g2)
+                C = run_once(p2, dict(maxiter=at + 1, maxfun=10 ** 6, maxls=20, maxcor=mc, ftol=0.0, gtol=1e-12), checkpoint=ck, x0=seen["x"].copy())
+                if C["exc"] is None and R["res"].nit == at + 1 and C["res"].nit == at + 1:
+                    if not _close(R["snap"]["x"], C["snap"]["x"], 1e-7):
+                        bad.setdefault("C13.next_iterate_as_restart_on_new_objective",
+                                       "%s switch at update %d: next iterate %s, a restart on the new objective from the rewritten history gives %s (pairs kept: %d)" % (
+                                           kind, at, R["snap"]["x"].tolist(), C["snap"]["x"].tolist(), skr.shape[0]))
+        out.append(dict(problem=name, violated=bad))
+    return dict(runs=out)
+
+
+@register("scenario_scaler")
+def scenario_scaler(c):
+    """C17: gradient scaler s  ==  explicitly scaled objective."""
+    out = []
+    K = c.get("K", 4)
+    base = dict(maxiter=K, maxfun=10 ** 6, maxls=20, maxcor=c.get("maxcor", 5), ftol=c.get("ftol", 0.0), gtol=1e-10)
+    for name, p in problems().items():
+        bad = {}
+        for s in (c.get("scale", 2.5), 1e-3, 1e3, 0.37):
+            calls = []
+
+            def scaler(x, g, lb, ub):
+                calls.append(dict(x=np.array(x).copy(), g=np.array(g).copy(), lb=np.array(lb).copy(), ub=np.array(ub).copy()))
+                return s
+            LS = Logged(p)
+            S = run_once(p, dict(base), L=LS, callback_kind="false", extra=dict(gradient_scaler=scaler))
+            LE = Logged(p, scale_obj=s)
+            E = run_once(p, dict(base), L=LE, callback_kind="false")
+            if S["exc"] or E["exc"]:
+                bad["no_exception"] = "raised %r" % (S["exc"] or E["exc"],)
+                continue
+            d = _same_state(S["snap"], E["snap"], fields=("x", "fun", "jac", "nfev", "njev", "nit", "sk", "yk", "message", "success"), tol=1e-9)
+            if d:
+                bad.setdefault("C17.same_result_as_scaled_objective", "s=%g: %s" % (s, "; ".join(d)[:300]))
+            if len(LS.fcalls) != len(LE.fcalls) or any(not _close(a[0], b[0], 1e-12) for a, b in zip(LS.fcalls, LE.fcalls)):
+                bad.setdefault("C17.same_evaluation_points", "s=%g: evaluation points differ (%d vs %d calls)" % (s, len(LS.fcalls), len(LE.fcalls)))
+            if len(S["states"]) != len(E["states"]) or any(_same_state(a["snap"], b["snap"], tol=1e-9) for a, b in zip(S["states"], E["states"])):
+                bad.setdefault("C17.same_callback_states", "s=%g: callback states differ" % s)
+            lb, ub = p["bounds"][:, 0], p["bounds"][:, 1]
+            if len(calls) != 1 or not np.array_equal(calls[0]["x"], LS.gcalls[0][0]) or not np.array_equal(calls[0]["g"], LS.gcalls[0][1]) \
+                    or not np.array_equal(calls[0]["lb"], lb) or not np.array_equal(calls[0]["ub"], ub):
+                bad.setdefault("C17.scaler_called_once_with_start_point_and_unscaled_gradient", "scaler invoked %d times / wrong arguments" % len(calls))
+        # target tested on the unscaled value
+        fstart = float(p["f"](np.clip(p["x0"], lb, ub)))
+        ft = fstart - 1e-3 * (1 + abs(fstart))
+        S = run_once(p, dict(base, ftarget=ft, maxiter=50), extra=dict(gradient_scaler=lambda x, g, lb, ub: 7.0))
+        if S["exc"] is None and S["res"].message == MSG["TARGET"]:
+            if float(p["f"](S["snap"]["x"])) > ft:
+                bad["C17.target_tested_on_unscaled_value"] = "TARGET reported with unscaled f=%r > ftarget=%r" % (float(p["f"](S["snap"]["x"])), ft)
+        elif S["exc"] is None:
+            U = run_once(p, dict(base, ftarget=ft, maxiter=50))
+            if U["exc"] is None and U["res"].message == MSG["TARGET"] and S["res"].message != MSG["TARGET"] and S["res"].nit >= U["res"].nit + 3:
+                bad["C17.target_tested_on_unscaled_value"] = "with a scaler the target %r is never met (message %r)" % (ft, S["res"].message)
+        out.append(dict(problem=name, violated=bad))
+    return dict(runs=out)
+
+
+class _RecLogger:
+    def __init__(self):
+        self.lines = []
+
+    def info(self, m, *a):
+        self.lines.append(str(m))
+
+    warning = debug = error = info
+
+
+@register("scenario_isolation")
+def scenario_isolation(c):
+    """C14: determinism, isolation between runs, inputs untouched, logging without influence."""
+    out = []
+    K = c.get("K", 4)
+    probs = problems()
+    names = list(probs)
+    base = dict(maxiter=K, maxfun=10 ** 6, maxls=20, maxcor=c.get("maxcor", 5), ftol=0.0, gtol=1e-10)
+    flds = ("x", "fun", "jac", "nfev", "njev", "nit", "sk", "yk", "message", "success")
+    for i, name in enumerate(names):
+        p = probs[name]
+        q = probs[names[(i + 1) % len(names)]]
+        bad = {}
+        P1 = run_once(p, dict(base), callback_kind="false")
+        if P1["exc"]:
+            out.append(dict(problem=name, error=str(P1["exc"])))
+            continue
+        run_once(q, dict(base, maxiter=2))
+        P2 = run_once(p, dict(base), callback_kind="false")
+        if P2["exc"] or _same_state(P1["snap"], P2["snap"], fields=flds, tol=0.0):
+            bad["C14.same_arguments_same_result"] = "second identical call differs: %s" % ("; ".join(_same_state(P1["snap"], P2["snap"], fields=flds, tol=0.0))[:300] if not P2["exc"] else P2["exc"])
+        # nested run inside the objective at call index j
+        for j in (0, 1, max(0, len(P1["fcalls"]) - 1)):
+            L = Logged(p)
+            orig = L.fun
+
+            def fun(x, *a, _j=j, _L=L, _orig=orig):
+                if len(_L.fcalls) == _j:
+                    run_once(q, dict(base, maxiter=2))
+                return _orig(x)
+            L.fun = fun
+            P3 = run_once(p, dict(base), L=L, callback_kind="false")
+            if P3["exc"] or _same_state(P1["snap"], P3["snap"], fields=flds, tol=0.0):
+                bad.setdefault("C14.nested_run_does_not_disturb", "a run nested in objective call %d changes the result" % j)
+        # read-only inputs
+        x0 = np.array(p["x0"], dtype=float)
+        bnd = np.array(p["bounds"], dtype=float)
+        x0c, bndc = x0.copy(), bnd.copy()
+        x0.flags.writeable = False
+        bnd.flags.writeable = False
+        P4 = run_once(dict(p, bounds=bnd), dict(base), x0=x0, callback_kind="false")
+        if P4["exc"]:
+            bad["C14.read_only_inputs_accepted"] = "read-only x0/bounds: %r" % (P4["exc"],)
+        elif not (np.array_equal(x0, x0c) and np.array_equal(bnd, bndc)):
+            bad["C14.inputs_untouched"] = "x0 or bounds modified"
+        # checkpoint: read-only, restart twice, with and without a scaler
+        A = run_once(p, dict(base, maxiter=max(1, c.get("k", 2))))
+        if not A["exc"]:
+            for scaler in (None, lambda x, g, lb, ub: 3.0):
+                ck = copy.deepcopy(A["res"])
+                s0 = snap(ck)
+                for arr in (ck.x, ck.jac, ck.hess_inv.sk, ck.hess_inv.yk):
+                    arr.flags.writeable = False
+                ex = dict(gradient_scaler=scaler) if scaler else None
+                R1 = run_once(p, dict(base), checkpoint=ck, x0=ck.x, extra=ex)
+                if R1["exc"]:
+                    bad.setdefault("C14.read_only_inputs_accepted", "read-only checkpoint%s: %r" % (" with scaler" if scaler else "", R1["exc"]))
+                    ck = copy.deepcopy(A["res"])
+                    s0 = snap(ck)
+                    R1 = run_once(p, dict(base), checkpoint=ck, x0=ck.x, extra=ex)
+                    if R1["exc"]:
+                        continue
+                if _same_state(s0, snap(ck), fields=flds, tol=0.0):
+                    bad.setdefault("C14.checkpoint_untouched", "restart%s modified the checkpoint: %s" % (" with scaler" if scaler else "", "; ".join(_same_state(s0, snap(ck), fields=flds, tol=0.0))[:300]))
+                R2 = run_once(p, dict(base), checkpoint=ck, x0=ck.x, extra=ex)
+                if R2["exc"] or _same_state(R1["snap"], R2["snap"], fields=flds, tol=0.0):
+                    bad.setdefault("C14.restart_twice_same_result", "two restarts%s from one checkpoint object differ" % (" with scaler" if scaler else ""))
+        # logging
+        for ipr in (-1, 0, 1, 50, 99, 100, 101):
+            lg = _RecLogger()
+            P5 = run_once(p, dict(base), callback_kind="false", extra=dict(iprint=ipr, logger=lg))
+            if P5["exc"]:
+                bad.setdefault("C14.logging_does_not_raise", "iprint=%d: %r" % (ipr, P5["exc"]))
+            elif _same_state(P1["snap"], P5["snap"], fields=flds, tol=0.0):
+                bad.setdefault("C14.logging_has_no_numerical_influence", "iprint=%d changes the result" % ipr)
+        out.append(dict(problem=name, violated=bad))
+    return dict(runs=out)
+
+
+class _UserError(RuntimeError):
+    pass
+
+
+@register("scenario_fault")
+def scenario_fault(c):
+    """C20: a user callable raises at call index i; the exception must escape unchanged; a later clean call is unaffected."""
+    out = []
+    K = c.get("K", 3)
+    kinds = [c["fault_kind"]] if c.get("fault_kind") else ["fun", "jac", "callback", "ftarget", "gtol", "scaler", "update"]
+    etypes = [TypeError, IndexError, ValueError, AssertionError, ZeroDivisionError, KeyError, _UserError]
+    flds = ("x", "fun", "jac", "nfev", "njev", "nit", "sk", "yk", "message", "success")
+    for name in ("qp2", "rosen2"):
+        p = problems()[name]
+        bad = {}
+        base = dict(maxiter=K, maxfun=10 ** 6, maxls=20, maxcor=5, ftol=0.0, gtol=1e-10)
+
+        def build(kind, fault):
+            """-> (Logged, cfg-extra, callback) with the callable of `kind` raising at fault=(index, exc)."""
+            L = Logged(p)
+            cnt = dict(n=0)
+
+            def hit():
+                i = cnt["n"]
+                cnt["n"] += 1
+                if fault is not None and i == fault[0]:
+                    raise fault[1]
+            extra = {}
+            if kind in ("fun", "jac"):
+                if fault is not None:
+                    L.fault = (kind, fault[0], fault[1])
+            if kind == "ftarget":
+                def ft():
+                    hit()
+                    return -1e300
+                extra["ftarget"] = ft
+            if kind == "gtol":
+                def gt():
+                    hit()
+                    return 1e-10
+                extra["gtol"] = gt
+            if kind == "scaler":
+                def sc(x, g, lb, ub):
+                    hit()
+                    return 2.0
+                extra["gradient_scaler"] = sc
+            if kind == "update":
+                def up(x, f0, f0_old, grad, X, G):
+                    hit()
+                    return f0, f0_old, grad, G
+                extra["update_fun_def"] = up
+            if kind == "callback":
+                def cb(xk, st):
+                    hit()
+                    return False
+                extra["callback"] = cb
+            return L, extra, cnt
+        for kind in kinds:
+            L0, extra0, cnt0 = build(kind, None)
+            clean = run_once(p, dict(base), L=L0, extra=extra0)
+            if clean["exc"]:
+                bad.setdefault("no_exception", "clean run with a %s callable raised %r" % (kind, clean["exc"]))
+                continue
+            ncalls = dict(fun=len(clean["fcalls"]), jac=len(clean["gcalls"])).get(kind, cnt0["n"])
+            for idx in sorted({0, 1, ncalls - 1} & set(range(ncalls))):
+                for et in etypes:
+                    err = et("user failure #%d" % idx)
+                    L1, extra1, _ = build(kind, (idx, err))
+                    F = run_once(p, dict(base), L=L1, extra=extra1)
+                    if F["exc"] is not err:
+                        got = "a result with message %r" % F["res"].message if F["exc"] is None else "%s: %s" % (type(F["exc"]).__name__, F["exc"])
+                        bad.setdefault("C20.exception_propagates", "%s raising %s at its call %d: the caller gets %s" % (kind, et.__name__, idx, got))
+                    L2, extra2, _ = build(kind, None)
+                    after = run_once(p, dict(base), L=L2, extra=extra2)
+                    if after["exc"] or _same_state(clean["snap"], after["snap"], fields=flds, tol=0.0):
+                        bad.setdefault("C20.fault_free_call_afterwards_unaffected", "after a %s in %s the clean call differs" % (et.__name__, kind))
+        out.append(dict(problem=name, violated=bad))
+    return dict(runs=out)
